@@ -711,10 +711,32 @@ namespace detail {
 
         };
 
+        // position of the keyword of a state description line ("State : flag F", "State : entry a"):
+        // the first occurrence that directly follows the ':' of its line
+        // (a state, event or action name that merely contains the keyword does not count)
+        constexpr std::size_t find_line_keyword(std::string_view str, std::string_view keyword)
+        {
+            auto pos = str.find(keyword);
+            while (pos != std::string_view::npos)
+            {
+                auto before = pos;
+                while (before > 0 && (str[before - 1] == ' ' || str[before - 1] == '\t'))
+                {
+                    --before;
+                }
+                if (before > 0 && str[before - 1] == ':')
+                {
+                    return pos;
+                }
+                pos = str.find(keyword, pos + 1);
+            }
+            return std::string_view::npos;
+        }
+
         template <class Func, class T = boost::fusion::vector0<>>
         constexpr auto parse_flags(Func stt, auto state_name, T vec = T{})
         {
-            constexpr auto flag_pos = stt().find("flag");
+            constexpr auto flag_pos = find_line_keyword(stt(), "flag");
 
             if constexpr (flag_pos != std::string::npos)
             {          
@@ -800,7 +822,7 @@ namespace detail {
         template <class Func, class T = boost::fusion::vector0<>>
         constexpr auto parse_state_actions(Func stt, auto state_name, auto tag_text, T vec = T{})
         {
-            constexpr auto entry_pos = stt().find(std::string_view(tag_text()));
+            constexpr auto entry_pos = find_line_keyword(stt(), std::string_view(tag_text()));
             constexpr auto tag_size = std::string_view(tag_text()).length();
 
             if constexpr (entry_pos != std::string::npos)
